@@ -118,7 +118,7 @@ func namedOf(t types.Type) *types.Named {
 
 func typeName(t types.Type) string {
 	if n := namedOf(t); n != nil {
-		return n.Obj().Name()
+		return cn(n.Obj())
 	}
 	return types.TypeString(t, func(*types.Package) string { return "" })
 }
